@@ -10,7 +10,7 @@
 From Hive.Base Require Import Prelude.
 From Hive.Model Require Import Types KernelBase SimOps States Step.
 From Hive.Gen Require Import Kernels.
-From Hive.Proofs Require Import Guards Member VehFrame Macro CountInv PlaceInv.
+From Hive.Proofs Require Import Guards Member VehFrame Macro CountInv PlaceInv Eligible.
 
 Theorem C10_grant_access_meaning : forall e v : Membership,
   grant_access_to_membership e v = true <-> e = [] \/ exists f, In f e /\ In f v.
@@ -31,6 +31,16 @@ Proof. intros env ops s0 K vid v0 F. destruct (history_vehicle_frame env ops s0 
 Theorem C10_access_over_histories : forall env ops s0, vkeys s0 -> Inv_place s0 -> Forall op_ok ops ->
   forall vid v, find vid (vehicles (fold_left (step_op env) ops s0)) = Some v -> has_access (fold_left (step_op env) ops s0) v.
 Proof. exact access_over_histories. Qed.
+(* the built-in trip dispatcher, solving for fleet f, offers only vehicles and requests whose membership grants f access *)
+Theorem C10_dispatcher_offers_only_fleet_members : forall env states mr br f v r,
+  dispatcher_valid_vehicle env states mr br (Some f) v = true -> dispatcher_valid_request (Some f) r = true ->
+  grant_access_to_membership_id (v_mem v) f = true /\ grant_access_to_membership_id (r_mem r) f = true.
+Proof.
+  intros env states mr br f v r Hv Hr. apply valid_vehicle_spec in Hv. apply valid_request_spec in Hr.
+  destruct Hv as (_ & _ & A & _). destruct Hr as (_ & B). auto.
+Qed.
+Print Assumptions C10_dispatcher_offers_only_fleet_members.
+
 Print Assumptions C10_access_over_histories.
 Print Assumptions C10_membership_constant_over_histories.
 Print Assumptions C10_grant_access_meaning.
